@@ -367,6 +367,65 @@ def run_refusals(res, inc, progress):
                     }
                 )
             res["nontrivial"].append(hash(("refuse", name, depth)) & 0xFFFFFFFFFFFF)
+    # ... also in children that are not converted generator functions: a hand-written asyncio twin (a plain coroutine
+    # that does not set the mode itself) and a plain function reached through async_call - awaited while the yielding
+    # task is suspended, they still run inside fn.asyncio()
+    from asynq import async_call
+
+    def attempt():
+        try:
+            fn(1)
+            return ("returned", is_asyncio_mode())
+        except RuntimeError:
+            return ("RuntimeError", is_asyncio_mode())
+        except BaseException as e:
+            return (type(e).__name__, is_asyncio_mode())
+
+    async def twin_async(x):
+        return attempt()
+
+    @A(asyncio_fn=twin_async)
+    def twin(x):
+        return ("scheduler-mode", x)
+
+    def plain(x):
+        return attempt()
+
+    shapes = [
+        ("explicit asyncio_fn, alone", lambda: twin.asynq(1), lambda r: r),
+        ("explicit asyncio_fn, in a list", lambda: [twin.asynq(1), twin.asynq(2)], lambda r: r[1]),
+        ("plain function through async_call", lambda: async_call.asynq(plain, 1), lambda r: r),
+        ("plain function through async_call, in a dict", lambda: {"k": async_call.asynq(plain, 1)}, lambda r: r["k"]),
+    ]
+    for sname, build, pick in shapes:
+        for depth in (0, 1):
+            del ran[:]
+
+            @A()
+            def body():
+                return pick((yield build()))
+
+            @A()
+            def outer():
+                return (yield (body.asynq(),))[0]
+
+            try:
+                got = asyncio.run((outer if depth else body).asyncio())
+            except BaseException as e:
+                got = "asyncio.run raised %r" % (e,)
+            res["evaluations"] += 1
+            inc("sync_call_probes")
+            inc("sync_call_refusal_cells")
+            if (got != ("RuntimeError", True) or ran or is_asyncio_mode()) and len(res["violations"]) < 6:
+                res["violations"].append(
+                    {
+                        "oracle": "sync-call-in-asyncio-mode-did-not-raise-RuntimeError",
+                        "mechanism": "sync-call-in-asyncio-mode-did-not-raise-RuntimeError/awaited-child",
+                        "detail": {"child": sname, "observed (outcome, is_asyncio_mode() seen by the child)": repr(got), "code_that_ran": list(ran), "called_from_a_child_task": bool(depth)},
+                        "case": {"mode": "refusals", "cases": [0, 1]},
+                    }
+                )
+            res["nontrivial"].append(hash(("refuse-child", sname, depth)) & 0xFFFFFFFFFFFF)
     return res
 
 
